@@ -181,7 +181,7 @@ def sign_change_near(F, ps, r, tol, lo, hi):
 def gen_bracket_case(rng, underflow=False):
     """returns (family, params, a, b, info) with a sign change / end-point root / same signs as drawn"""
     mode = rng.choice(["interior", "interior", "interior", "endpoint", "samesign", "huge", "tiny", "multi", "rational",
-                       "rational", "reversed"] if not underflow else ["interior", "samesign", "multi", "reversed"])
+                       "rational", "reversed", "exact_tol"] if not underflow else ["interior", "samesign", "multi", "reversed"])
     fam = 1
     scale = 1.0
     if mode == "huge":
@@ -210,6 +210,10 @@ def gen_bracket_case(rng, underflow=False):
         a = r1 + rng.choice([0.5, 2.0]); b = a + wr
     if mode == "reversed":
         a, b = b, a
+    if mode == "exact_tol":   # dyadic bracket of width 2^j around a non-dyadic root: |dm| hits a power-of-two xtol exactly
+        r1 = r1 + rng.choice([0.3, 0.1, -0.7])
+        a = math.floor(r1) - rng.choice([0.0, 1.0, 3.0]); b = a + rng.choice([2.0, 4.0, 8.0, 16.0])
+        while not (a < r1 < b): b += 4.0
     s = rng.choice([1.0, -1.0]) * pow2(rng, -3, 3)
     if mode in ("rational",):
         fam = 0
@@ -267,6 +271,9 @@ def run(ctx):
                 xtol, rtol, maxiter, disp = tolerances(rng, 1.0)
                 if mode in ("huge", "tiny"):
                     xtol = xtol * max(abs(a), abs(b), 1e-300) if rng.random() < 0.7 else xtol
+                if mode == "exact_tol":
+                    xtol, rtol = pow2(rng, -20, -2), 0.0
+                    if rng.random() < 0.4: xtol = abs(b - a) * rng.choice([1.0, 0.5, 0.25])   # |sbis| == delta at some pass
                 if rng.random() < 0.03: xtol = rng.choice([0.0, -1e-3])
                 if rng.random() < 0.03: maxiter = rng.choice([0, -1])
                 F, J = funcs(fam)
